@@ -1,8 +1,4 @@
 #!/bin/bash
-# builds bin/bngvc-new from the working tree, but with tool/llvc taken from the last commit (the llvc agent edits it concurrently)
+# builds bin/bngvc-new from the working tree (development binary; the registered commands use bin/bngvc built by the MANIFEST setup_cmd)
 set -e
-B=/tmp/bt_build; rm -rf $B; mkdir -p $B
-rsync -a --exclude llvc /verif/tool/ $B/tool/
-git -C /verif archive HEAD tool/llvc | tar -x -C $B
-cd $B/tool && GOFLAGS=-mod=vendor GOPROXY=off go build -o /verif/bin/bngvc-new ./cmd/bngvc
-rm -rf $B
+cd /verif/tool && GOFLAGS=-mod=vendor GOPROXY=off GOTOOLCHAIN=auto go build -o /verif/bin/bngvc-new ./cmd/bngvc
